@@ -67,6 +67,8 @@ class Decoder:
             if got[0] != sc["start"]:
                 raise common.MachineryError(f"window placement not reproducible: {sc} -> {got}")
             subs.append(sb)
+            if (cfg["aw"] + len(cfg["subs"])) % 2:
+                common.poke_map(dec.bus.memory_map, k + cfg["aw"])     # queries while the decoder is being assembled
         # buses whose add() is refused are not subordinates: their read data must not reach the decoder
         outsiders = []
         for k, sc in enumerate(cfg.get("rejected", [])):
@@ -303,6 +305,7 @@ def build_tree(t, dw, m=None):
             except ValueError:
                 # could not be placed: the subtree stays unconnected (its bus idles at zero)
                 continue
+            common.poke_map(dec.bus.memory_map, k + 1)
         if m is not None:
             m.submodules["_".join(path) + "_dec"] = dec
         return dec.bus
